@@ -12,7 +12,7 @@ from functools import lru_cache
 
 from hvsim import fixtures
 from hvsim.core import BudgetExceeded, RunResult, Violation, metered, rng_for, set_stream_align
-from hvsim.engines import disk
+from hvsim.engines import chains, disk
 from hvsim.simfs import monitored
 from hvsim.world import World
 
@@ -70,7 +70,31 @@ class Known:
 def gen_case(seed: int, prop: str, tier: str) -> dict:
     rng = rng_for(seed, "history")
     r = rng.random()
-    if r < 0.12:
+    if 0.12 <= r < 0.27:
+        # layered world: the clients are views that share library-internal state (QCOW2 snapshot views share the file
+        # handle and the L2 cache; every chain shares its parents' stream objects across requests)
+        while True:
+            cc = chains.gen_case(rng.getrandbits(50), "C08", tier, kind=rng.choice(["qcow2snap", "qcow2snap", "qcow2", "vhdx", "vmdk", "hdd", "vdi"]))
+            if not cc.get("fault"):
+                break
+        nviews = len(cc["layers"])
+        multi = cc["kind"] in ("qcow2snap", "hdd")
+        nclients = rng.choice([1, 2, 3]) if multi else 1
+        nclients = min(nclients, nviews)
+        # distinct views: the same view handed out twice is the same stream object (one cursor), not two clients
+        views = rng.sample(range(nviews), nclients) if multi else [nviews - 1]
+        src = {"kind": "chain", "ccase": dict(cc, cops=[]), "views": views}
+        size = chains._nsectors(cc, cc["layers"][0 if cc["kind"] == "qcow2snap" else -1]) * 512
+        sector = cc["sector"]
+        unit_bytes = cc["layers"][-1]["unit"] * 512
+        has_rs = cc["kind"] in ("vhdx", "vmdk")
+        marks = {0, size}
+        for L in cc["layers"]:
+            for op in L["ops"]:
+                if op[0] in ("w", "z"):
+                    marks.update((op[1] * 512, (op[1] + op[2]) * 512))
+        marks = sorted(m for m in marks if m <= size)
+    elif r < 0.12:
         src = {"kind": "fixture", "name": rng.choice(sorted(fixtures.DISK_FIXTURES))}
         size, sector, unit_bytes, has_rs = _fixture_geom(src["name"])
         marks = [0, size, unit_bytes, 2 * unit_bytes, size - unit_bytes]
@@ -99,7 +123,7 @@ def gen_case(seed: int, prop: str, tier: str) -> dict:
     a1 = rng.choice(aligns)
     a2 = rng.choice(aligns)
     nops = rng.choice([10, 20, 40] if tier == "quick" else [10, 30, 80, 200, 400])
-    nclients = rng.choice([1, 1, 2])
+    nclients = len(src["views"]) if src["kind"] == "chain" else rng.choice([1, 1, 2])
     hist = _gen_history(rng, size, sector, unit_bytes, marks, nops, nclients, [a1, a2], has_rs)
     return {"engine": "history", "prop": prop, "seed": seed, "src": src, "aligns": [a1, a2], "nclients": nclients,
             "cache": rng.choice([None, None, 1, 2, 7]), "hist": hist}
@@ -162,6 +186,10 @@ def _gen_history(rng, size, sector, unit, marks, nops, nclients, aligns, has_rs)
 
 def _open(world: World, case: dict):
     src = case["src"]
+    if src["kind"] == "chain":
+        cc = src["ccase"]
+        open_fn, views, expect_fail, rs_fn = chains.build(cc, world)
+        return open_fn, (rs_fn if cc["kind"] in ("vhdx", "vmdk") else None), cc["sector"]
     if src["kind"] == "fixture":
         p = fixtures.install(world, src["name"])
         return lambda: fixtures.open_disk(world, src["name"], p), _rs_fn(fixtures.DISK_FIXTURES[src["name"]][0]), 512
@@ -204,9 +232,10 @@ def run_case(case: dict) -> RunResult:
     log = world.log
     prop = case["prop"]
     src = case["src"]
-    sig = {"src": src["kind"], "fmt": src.get("fmt") or fixtures.DISK_FIXTURES[src["name"]][0]}
+    sig = {"src": src["kind"], "fmt": src.get("fmt") or (src["ccase"]["kind"] if src["kind"] == "chain" else fixtures.DISK_FIXTURES[src["name"]][0])}
     viol = None
-    known = Known()
+    knowns = {}
+    view_of = src["views"] if src["kind"] == "chain" else None
     keys, ntkeys = set(), set()
 
     def v(klass, detail):
@@ -218,26 +247,48 @@ def run_case(case: dict) -> RunResult:
             if viol:
                 break
             set_stream_align(align)
-            streams = []
-            try:
-                with metered(STEP_LIMIT, "loop", world.step_allowance(STEP_LIMIT, 2.0, 1 << 22)):
-                    for c in range(case["nclients"]):
-                        s = opener()
+            streams = {}
+            if src["kind"] == "chain" and pass_no:
+                opener, rs_fn, sector = _open(world, case)  # a fresh set of shared objects for the second buffer size
+            size = None
+            pos = {}
+
+            def get_stream(c):
+                """Clients are opened lazily, at their first operation: a view opened after another view has been used sees
+                whatever state that use left in shared objects."""
+                if c not in streams:
+                    with metered(STEP_LIMIT, "loop", world.step_allowance(STEP_LIMIT, 2.0, 1 << 22)):
+                        if src["kind"] == "chain":
+                            st = chain_open(src["views"][c])
+                        else:
+                            st = opener()
                         if case["cache"]:
-                            _shrink_caches(s, case["cache"])
-                        streams.append(s)
+                            _shrink_caches(st, case["cache"])
+                    streams[c] = st
+                    pos[c] = 0
+                    log.add("acquirer", "open", [pass_no, align, c], st.size)
+                return streams[c]
+
+            if src["kind"] == "chain":
+                chain_open = opener
+            try:
+                size = get_stream(case["hist"][0][1] if case["hist"] else 0).size
             except BudgetExceeded:
                 viol = v("budget", "open did not finish within the step budget")
                 break
             except Exception as e:
                 viol = v("raised:" + type(e).__name__, f"open raised {type(e).__name__}: {e}"[:300])
                 break
-            size = streams[0].size
-            pos = [0] * len(streams)
-            log.add("acquirer", "open", [pass_no, align, len(streams)], size)
             for op in case["hist"]:
                 kind, c = op[0], op[1]
-                s = streams[c]
+                try:
+                    s = get_stream(c)
+                except BudgetExceeded:
+                    viol = v("budget", "open did not finish within the step budget")
+                    break
+                except Exception as e:
+                    viol = v("raised:" + type(e).__name__, f"open of client {c} raised {type(e).__name__}: {e}"[:300])
+                    break
                 try:
                     with metered(STEP_LIMIT, "loop", world.step_allowance(STEP_LIMIT, 2.0, (8 << 20))):
                         got, at = None, None
@@ -306,6 +357,7 @@ def run_case(case: dict) -> RunResult:
                 if kind != "rs" and s.tell() != pos[c]:
                     viol = v("position", f"{op}: position {s.tell()} after the call, contract says {pos[c]}")
                     break
+                known = knowns.setdefault(view_of[c] if view_of else 0, Known())
                 bad = known.check_learn(at, got)
                 if bad >= 0:
                     viol = v("inconsistent", f"{op} (align {align}, pass {pass_no}): byte at offset {bad} differs from what an "
